@@ -184,6 +184,9 @@ def run(rep: Report, tier: str) -> None:
     ra = rep.rule("C15.a", "unrealized cost = sum over computed_data.in_transaction_set of fiat_in_with_fee * (1 - sold%); the grand total receives the same terms", floor=5)
     rb = rep.rule("C15.b", "every balance with final_balance > ZERO adds to [asset][holder] and is recorded under [asset][holder][exchange], keys from the same balance", floor=6)
     rc = rep.rule("C15.c", "report rows: per-unit = asset cost / sum of holder balances; one row per holder and per (holder, exchange) with balance, per-unit, balance * per-unit, that / grand total", floor=20)
+    from ..engine import check_cell_sink
+
+    check_cell_sink(rep, rc)
     rd = rep.rule("C15.d", "sold% table: per lot, sum of amount / lot.crypto_in over the to-date-filtered fractions; realized + unrealized = cost of the lot as formulas", floor=6)
     re_ = rep.rule("C15.e", "no order-sensitive grouping of balances (itertools.groupby needs input sorted by the same key)", floor=0)
 
